@@ -523,6 +523,35 @@ def not_forwarded(repo, col, prop):
     col.info["calls_omitting_a_held_optional_argument"] = n
 
 
+def must_stores(repo, col, prop):
+    """Stores that re-establish an invariant are unconditional (table MUST_STORE in rules/mustcall_table.py)."""
+    from .mustcall_table import MUST_STORE
+    from . import idx
+    R = f"R-{prop}-muststore"
+    rows = [r for r in MUST_STORE if prop in r[0]]
+    if not rows:
+        return
+    n = 0
+    for _props, qual, kind, name, why in rows:
+        cls, _, meth = qual.partition(".")
+        fi = repo.method(cls, meth)
+        ex = idx.expander(repo, fi)
+        if kind == "attr":
+            sts = [s_ for s_ in ex.stores if s_.kind == "attr" and s_.key.name == name]
+        else:
+            sts = [s_ for s_ in ex.stores if s_.kind == "sub" and s_.key.op == "const" and s_.key.name == name]
+        n += 1
+        if not sts:
+            col.bad(R, fi, f"{qual} (re)sets `{name}`", f"`{name}` is no longer set by {qual}: {why}", node=fi.node)
+            continue
+        uncond = [s_ for s_ in sts if not [g for g in s_.guards if g.op != "loop"]]
+        g0 = next((g for s_ in sts for g in s_.guards if g.op != "loop"), None)
+        col.check(bool(uncond), R, fi, f"{qual} (re)sets `{name}` on every path", why,
+                  f"`{name}` is set only if `{g0.short(70) if g0 is not None else ''}`: {qual} runs again on objects that already carry an "
+                  f"old value (set_ncomp, view creation), which then survives -- {why}", node=sts[0].node)
+    col.rule(R, "invariant-restoring stores are unconditional", max(1, n))
+
+
 def run_all(prop, repo, col, tier):
     mod = importlib.import_module(f"rules.{prop.lower()}")
     pending = None
@@ -534,5 +563,6 @@ def run_all(prop, repo, col, tier):
     early_exits(repo, col, prop)
     must_calls(repo, col, prop)
     not_forwarded(repo, col, prop)
+    must_stores(repo, col, prop)
     if pending is not None:
         raise pending
